@@ -48,23 +48,23 @@ CLAIMS = {
                 note="Numerical equality of samples follows from the expression shape and IEEE arithmetic (not separately analysed); calibration file contents trusted.",
                 technique="symbolic def-use terms + dominance on the event-assembly function"),
     "C11": dict(level="other", design="§5 C11",
-                text="Census of every iteration over std HashMap/HashSet in the workspace classified by sink (commutative vs order-leaking); loop-carried state of the bank loop; nondeterminism-source census (rand/time/thread/env/pointer casts) in the event closure; faer Parallelism::None.",
+                text="Census of every iteration over std HashMap/HashSet in the workspace classified by sink (commutative vs order-leaking; slot stores inside such a loop must be test-and-set per slot, the set not skippable after the test); loop-carried state of the bank loop; nondeterminism-source census (rand/time/thread/env/pointer casts) in the event closure; faer Parallelism::None.",
                 note="Bit-for-bit float reproducibility given identical operation order is a hardware/libm property (trusted).",
                 technique="type-resolved call census + sink classification + loop-carried-state analysis"),
     "C13": dict(level="other", design="§5 C13",
-                text="Necessary structural conditions of the rotation/mirror symmetry, decided exhaustively on the finite index domains: complete input/output tables of wire_to_pad_column (256 wires), pad_column_to_wires (32 columns), range_to_indices/range_to_len (all 65k block descriptors) and TpcPadRow::z (576 rows), obtained by evaluating the formulas of every return path; rotation equivariance / inverse / cyclic-order / antisymmetry relations checked on those tables; label and column wiring of avalanches(), wire_range_deconvolution, y_matrix by term shape; symbolic shift-invariance (Toeplitz) and symmetry of the induction-matrix index; ring-distance coupling of a full-ring block; the three-row window of pad_hits_at_t (seeds, one-row slide on every iteration, hit built from the window) by dominance and reaching definitions.",
-                note="Bit-identical equivariance of the floating-point kernels, the scan loop of contiguous_ranges and the mirror image of the centroid formula in floating point are NOT decided. Known finding F7: a block covering all 256 wires is solved with a Toeplitz (non-circulant) induction matrix, so the full-ring case of the property fails (KNOWN-FINDING line; demo findings/f7_full_ring_rotation.rs).",
+                text="Necessary structural conditions of the rotation/mirror symmetry, decided exhaustively on the finite index domains: complete input/output tables of wire_to_pad_column (256 wires), pad_column_to_wires (32 columns), range_to_indices/range_to_len (all 65k block descriptors) and TpcPadRow::z (576 rows), obtained by evaluating the formulas of every return path; rotation equivariance / inverse / cyclic-order / antisymmetry relations checked on those tables; label and column wiring of avalanches(), wire_range_deconvolution, y_matrix by term shape; symbolic shift-invariance (Toeplitz) and symmetry of the induction-matrix index; ring-distance coupling of a full-ring block; the three-row window of pad_hits_at_t (seeds, one-row slide on every iteration, hit built from the window) by dominance and reaching definitions; the two-cursor block scan of contiguous_ranges (cursor updates and push with their guards, role vocabulary); fresh per-column scratch state in avalanches().",
+                note="Bit-identical equivariance of the floating-point kernels, a scan of contiguous_ranges that is not in the two-cursor form and the mirror image of the centroid formula in floating point are NOT decided. Known finding F7: a block covering all 256 wires is solved with a Toeplitz (non-circulant) induction matrix, so the full-ring case of the property fails (KNOWN-FINDING line; demo findings/f7_full_ring_rotation.rs).",
                 technique="finite-domain evaluation of extracted path formulas (complete function tables) + symbolic substitution on index polynomials + def-use term shape"),
     "C14": dict(level="other", design="§5 C14",
                 text="NaN-guard dominance: divisions by h in Helix::closest_t dominated by the |h| >= eps edge; collinearity and theta==0 guards in the initial-guess code; constant agreement min cluster size >= 3; Track::try_from error discipline; t range (C16).",
                 note="That NaN never reaches the cost functions / sorts is NOT decided (continuous numerics).",
                 technique="CFG dominance of float-division guards + constant agreement"),
     "C15": dict(level="other", design="§5 C15",
-                text="Thresholds passed by the public wrappers (13 points, 3 cm), push of a Cluster dominated by the size guard, who-may-construct Cluster, primary vertex built only behind the >1-track filter.",
+                text="Thresholds passed by the public wrappers (13 points, 3 cm), push of a Cluster dominated by the size guard, who-may-construct Cluster, primary vertex built only behind the >1-track filter; SpacePoint::distance is the Euclidean distance (x = r cos phi, y = r sin phi); the flood fill of largest_cluster as two cursors with their updates and guards (role vocabulary); remainder bookkeeping and the one-cluster-per-track loop of beamline_clusters.",
                 note="Partition/conservation over all multisets is NOT decided (dynamic container reasoning).",
-                technique="who-may-construct census + dominance + constant-argument check"),
+                technique="who-may-construct census + dominance + constant-argument check + loop-carried cursor tables and value formulas compared with a spec"),
     "C16": dict(level="other", design="§5 C16",
-                text="all-returns analysis of Helix::closest_t (atan2 under |h| < eps, else clamp(-PI,PI) of the stationary-point expression); the Kepler mechanism (mean anomaly, eccentricity from the distance to the helix axis, residual, Newton step, stop criterion, start values) equals the stationarity condition of the distance; field writers of Track.t_inner/t_outer and VertexInfo.tracks are closest_t results on the right helix and the fitted position.",
+                text="all-returns analysis of Helix::closest_t (under |h| < eps the signed angle atan2(cross, dot) at the circle's centre between the t = 0 point and the query point, else clamp(-PI,PI) of the stationary-point expression); the Kepler mechanism (mean anomaly, eccentricity from the distance to the helix axis, residual, Newton step, stop criterion, start values) equals the stationarity condition of the distance; field writers of Track.t_inner/t_outer and VertexInfo.tracks are closest_t results on the right helix and the fitted position.",
                 note="Decides 'in [-pi,pi] or NaN' and 'the equation solved is the stationarity condition'; never-NaN, convergence of the Newton iteration and global minimality within 1e-9 m are NOT decided.",
                 technique="all-returns provenance with dominating guards + field-writer census + comparison of extracted formulas (helpers expanded, role vocabulary) with the derived equation"),
     "C18": dict(level="other", design="§5 C18",
@@ -72,11 +72,11 @@ CLAIMS = {
                 note="Known finding F6: 135 adjacent knots of the embedded table differ by 0.5 mm or more (reported as KNOWN-FINDING lines). Ulp-level interpolation arithmetic is not analysed.",
                 technique="guard/value table comparison + def-use non-interference + static analysis of the embedded data table"),
     "C19": dict(level="other", design="§5 C19",
-                text="sort_run_files dominance and internals (sort key, run-number and duplicate guards, extension match), one-row-per-main-event pipeline shape (filter/map/scan returning Some on all paths), ordered rayon API allow-list, wrapping_sub time arithmetic, sibling agreement of the two binaries.",
+                text="sort_run_files dominance and internals (sort key, run-number and duplicate guards, extension match), one-row-per-main-event pipeline shape (filter/map/scan returning Some on all paths), ordered rayon API allow-list, wrapping_sub time arithmetic, sibling agreement of the two binaries, declared columns (names, order, types) of the serialised Row structs.",
                 note="Byte-identical output across thread counts rests on rayon's ordering contract (trusted); lz4/CSV formatting not analysed.",
                 technique="pipeline-shape analysis over resolved iterator/rayon calls + all-returns + dominance"),
     "C20": dict(level="other", design="§5 C20",
-                text="Validate-before-write dominance (File::create after the collect ? of all boards; ensure!(input.is_empty()), epoch-0 marker, top-bit guard), chronobox_time accept atoms and formula, stream assembly (event id, bank name as the only condition on an appended bank, BTreeMap), element conservation in the row loop (split_last arms), row fields.",
+                text="Validate-before-write dominance (File::create after the collect ? of all boards; ensure!(input.is_empty()), epoch-0 marker, top-bit guard), chronobox_time accept atoms and formula, stream assembly (event id, bank name as the only condition on an appended bank, BTreeMap), element conservation in the row loop (split_last arms), row fields and the declared columns (names, order, types) of the serialised Row struct.",
                 note="Equality with true edge times over all hardware histories is NOT decided.",
                 technique="CFG dominance + term-shape comparison + pattern-arm conservation"),
 }
